@@ -264,7 +264,7 @@ def c10(tier, seed):
 @plan("C20")
 def c20(tier, seed):
     return dict(
-        jobs=diff_jobs("C20", tier, seed, dict(flags=0.1, nest=0.45, nest_flag=0.0, share_fns=0.6, max_stmts=7), 3, scale=0.7),
+        jobs=diff_jobs("C20", tier, seed, dict(flags=0.1, nest=0.45, nest_flag=0.0, share_fns=0.6, max_stmts=7, seq=0.3), 3, scale=0.7),
         level="exploration",
         rule=RULE_DIFF + "; nesting to depth 3, inner signatures with required and defaulted parameters, call forms supplying fewer / all "
         "parameters as constants or results, all return shapes, outer unpack / static index / pass-on, the SAME decorated functions used "
